@@ -110,17 +110,35 @@ impl Expr {
     }
 
     pub fn run(&self, constants: &dyn Context) -> Result<i64, ExprRunError> {
+        self.run_nested(constants, &mut vec![])
+    }
+
+    /// Evaluates the expression; `open` holds the symbols whose definitions are being
+    /// evaluated right now, so that definitions referring to each other end in an error.
+    fn run_nested(
+        &self,
+        constants: &dyn Context,
+        open: &mut Vec<String>,
+    ) -> Result<i64, ExprRunError> {
         match self {
             Expr::Ident(ident) => match constants.get_expr(ident) {
                 Some(Expr::Const(address)) => Ok(address),
-                // TODO: check recursion for cross linked equs and other labels
-                Some(expr) => expr.run(constants),
+                Some(expr) => {
+                    let name = ident.to_lowercase();
+                    if open.contains(&name) {
+                        return Err(ExprRunError::RecursiveDefinition(ident.clone()));
+                    }
+                    open.push(name);
+                    let value = expr.run_nested(constants, open);
+                    open.pop();
+                    value
+                }
                 None => Err(ExprRunError::MissingIdentifier(ident.clone())),
             },
             Expr::Const(value) => Ok(*value),
             Expr::Func(ident, argument) => {
                 if let Expr::Ident(name) = &**ident {
-                    let value = argument.run(constants)?;
+                    let value = argument.run_nested(constants, open)?;
                     let ret_val = match name.to_lowercase().as_str() {
                         "low" => (value as u64 & 0xff) as i64,
                         "high" | "byte2" => ((value as u64 & 0xff00) >> 8) as i64,
@@ -151,8 +169,8 @@ impl Expr {
                 }
             }
             Expr::Binary(binary) => {
-                let left = binary.left.run(constants)?;
-                let right = binary.right.run(constants)?;
+                let left = binary.left.run_nested(constants, open)?;
+                let right = binary.right.run_nested(constants, open)?;
                 match binary.operator {
                     BinaryOperator::Add => match left.checked_add(right) {
                         Some(value) => Ok(value),
@@ -224,7 +242,7 @@ impl Expr {
             }
             Expr::Unary(unary) => match unary.operator {
                 UnaryOperator::Minus => {
-                    let value = unary.expr.run(constants)?;
+                    let value = unary.expr.run_nested(constants, open)?;
                     match value.checked_neg() {
                         Some(value) => Ok(value),
                         None => Err(ExprRunError::ArithmeticError(format!(
@@ -234,11 +252,11 @@ impl Expr {
                     }
                 }
                 UnaryOperator::BitwiseNot => {
-                    let value = unary.expr.run(constants)?;
+                    let value = unary.expr.run_nested(constants, open)?;
                     Ok(value.reverse_bits())
                 }
                 UnaryOperator::LogicalNot => {
-                    let value = unary.expr.run(constants)?;
+                    let value = unary.expr.run_nested(constants, open)?;
                     Ok((value == 0) as i64)
                 }
             },
@@ -252,6 +270,8 @@ pub enum ExprRunError {
     MissingFunction(String),
     #[fail(display = "Identifier {} can not be found.", _0)]
     MissingIdentifier(String),
+    #[fail(display = "Identifier {} is defined in terms of itself.", _0)]
+    RecursiveDefinition(String),
     #[fail(display = "Arithmetic error: {}", _0)]
     ArithmeticError(String),
     #[fail(display = "{}", _0)]
